@@ -481,8 +481,32 @@ def gen_boxcar():
     sites = []
     for rel in ["src/boxcar.rs", "src/lib.rs", "src/worker.rs", "src/par_sort.rs"]:
         sites += atomic_sites(rel)
+    # Drop for Vec: which buckets does the loop visit, and what does Bucket::dealloc drop?
+    dm = re.search(r"impl<T> Drop for Vec<T> \{\s*fn drop\(&mut self\) \{\s*for \(i, bucket\) in self\.buckets\.iter_mut\(\)\.enumerate\(\) \{(.*?)\n        \}\n    \}", b, re.S)
+    if not dm:
+        raise TranslateError("Drop for Vec changed shape")
+    body = dm.group(1)
+    nm = re.search(r"if entries\.is_null\(\) \{\s*(break|continue|return);\s*\}", body)
+    if not nm:
+        raise TranslateError("Drop for Vec: null-bucket handling not found")
+    if not re.search(r"Bucket::dealloc\(entries, len, self\.columns\)", body):
+        raise TranslateError("Drop for Vec: dealloc call not found")
+    stops = nm.group(1) != "continue"
+    dd = re.search(r"unsafe fn dealloc\(entries: \*mut Entry<T>, len: u32, cols: u32\) \{(.*?)\n    \}", b, re.S)
+    if not dd:
+        raise TranslateError("Bucket::dealloc not found")
+    dbody = dd.group(1)
+    shape_ok = (re.search(r"for i in 0\.\.len \{", dbody) and re.search(r"if \*\(\*entry\)\.active\.get_mut\(\) \{", dbody)
+                and re.search(r"ptr::drop_in_place\(\(\*\(\*entry\)\.slot\.get\(\)\)\.as_mut_ptr\(\)\);", dbody)
+                and re.search(r"for matcher_col in Entry::matcher_cols_raw\(entry, cols\) \{\s*ptr::drop_in_place\(\(\*matcher_col\.get\(\)\)\.as_mut_ptr\(\)\);", dbody)
+                and re.search(r"std::alloc::dealloc\(entries as \*mut u8, arr_layout\)", dbody))
+    if not shape_ok:
+        raise TranslateError("Bucket::dealloc changed shape (expected: every active entry's slot and columns dropped, then the allocation freed)")
     out = ["/- GENERATED by translator/translate.py from src/{boxcar,lib,worker,par_sort}.rs — do not edit -/",
            "namespace NucleoVerif.Gen", ""]
+    out.append("/-- does the loop of `Drop for Vec` stop at the first bucket whose pointer is null (`break`/`return`) instead of skipping it (`continue`)? -/")
+    out.append(f"def dropStopsAtNull : Bool := {'true' if stops else 'false'}")
+    out.append("")
     for n_ in ["SKIP", "SKIP_BUCKET", "BUCKETS", "MAX_ENTRIES"]:
         out.append(f"def {n_} : Nat := {cs[n_]}")
     out.append("")
